@@ -15,12 +15,12 @@ import (
 
 // names a generator alphabet of a, b, c, p never contains: hyphen-digit, dots, underscores,
 // digits, the operator / node-type keywords, non-ASCII letters
-var rareElemNames = []string{"item-2", "col-10", "cfg.item", "a_b", "x1", "div", "and", "or", "mod", "text", "node", "comment", "éa", "αβ", "a-b", "a.b.c", "h1", "item", "col", "_u", "a-1b", "v1.2"}
-var rareAttrNames = []string{"id-1", "v1.2", "build.id", "a_b", "div", "mod", "x", "ü"}
+var rareElemNames = []string{"Item", "ITEM", "iTem", "DIV", "item-2", "col-10", "cfg.item", "a_b", "x1", "div", "and", "or", "mod", "text", "node", "comment", "éa", "αβ", "a-b", "a.b.c", "h1", "item", "col", "_u", "a-1b", "v1.2"}
+var rareAttrNames = []string{"ID", "id", "Id", "X", "id-1", "v1.2", "build.id", "a_b", "div", "mod", "x", "ü"}
 
 func rareDoc(o *cw, hasNS bool) *dref {
 	return o.doc(doc.Parse(`r(item-2(@id-1=1,@x=2,"t"),col-10(cfg.item(@v1.2=x,@build.id=7)),a_b(x1(@a_b=1)),div(@div=1,and(or),mod("3"),@mod=2),text(node(comment("c"))),item-2(@id-1=2),`+
-		"éa(@ü=1,αβ),"+`a-b(a.b.c),h1,item(@x=1),col,_u,a-1b,v1.2("9"),item("2"))`), hasNS)
+		"éa(@ü=1,αβ),"+`a-b(a.b.c),h1,item(@x=1),col,_u,a-1b,v1.2("9"),item("2"),Item(@ID=1,@id=2),ITEM(@Id=3),iTem,DIV(@X=1))`), hasNS)
 }
 
 // rarePaths: location paths over the rare names, every name in several positions
@@ -105,6 +105,7 @@ func edgeDoc(o *cw) *dref {
 	return o.doc(doc.Parse(`r(v("NaN"),v("Infinity"),v("-Infinity"),v("1"),v("1.0"),v("01"),v(" 1 "),v("-0"),v("7."),v("0"),v("1e3"),`+
 		`n(@n=`+huge+`),n(@n=-`+huge+`),n(@n=5),n(@n=1.0),n(@n=01),n(@n=" 1 "),n(@n=-0),n(@n=7.),n,`+
 		`i(@id=1000000000000001),i(@id=1000000000000002),i(@id=1000000000000003),i(@id=9007199254740993),i(@id=52.520006599999997),i(@id=0.14159265358979323846),`+
+		`b(@v=" "),b(@v="  "),b(@v=""),b(@v=x),b(@v="y z"),v("café"),v("日本"),v(@n=é,"é"),`+
 		`d(@dir=C:\tmp\,@t=$1\,"x\"),t(@f=.,@t=/-),t(@f=./,@t=-),t(@f=a/b,@t=c),t(@f=a,@t=b/c,"a/b.c"),`+"t(@f=a\x00b,@t=c,\"a\x00b\"),t(@f=a,@t=b\x00c,\"a\x00b.c\"),t(@f=a|b,@t=c),t(@f=a,@t=b|c,\"a|b\"))"), false)
 }
 
@@ -133,6 +134,29 @@ func rareC07(o *cw) {
 	}
 }
 
+// rareC07b: more than 64 nodes on the right of a node-set comparison; non-ASCII strings on the left
+func rareC07b(o *cw) {
+	hd := hundredDoc(o)
+	for _, op := range cmpOps {
+		for _, l := range []string{"/r/l[2]/i[1]/@n", "/r/l[2]/i[10]/@n", "/r/l[2]/i/@n", "//zz", "/r/l[1]/i[1]", "/r/l[1]/i[65]", "/r/l[1]/i[66]", "/r/l[1]/i[100]", "/r/l[2]/i[3]/@n | /r/l[2]/i[9]/@n"} {
+			for _, r := range []string{"/r/l[1]/i", "/r/l[1]/i[position() <= 65]", "/r/l[1]/i[position() <= 64]", "/r/l[1]/i[position() > 64]", "//i/@n", "/r/l[1]/i[position() <= 66]"} {
+				o.c("eval", hd, "/", "-", l+" "+op+" "+r, "", "set-set-wide")
+				o.c("eval", hd, "/", "-", r+" "+op+" "+l, "", "set-set-wide")
+			}
+		}
+	}
+	ed := edgeDoc(o)
+	for _, op := range []string{"=", "!="} {
+		for _, w := range []string{"café", "日本", "é", "cafe", "caf", "日"} {
+			for _, ns := range []string{"//v", "//v/@n", "//v | //b/@v", "//zz"} {
+				o.c("eval", ed, "/", "-", "'"+w+"' "+op+" "+ns, "", "non-ascii-compare")
+				o.c("eval", ed, "/", "-", ns+" "+op+" '"+w+"'", "", "non-ascii-compare")
+				o.c("sel", ed, "/", "-", "//*['"+w+"' "+op+" .]", "", "non-ascii-compare")
+			}
+		}
+	}
+}
+
 // rareC08: arithmetic and number() over the edge values
 func rareC08(o *cw) {
 	d := edgeDoc(o)
@@ -145,6 +169,7 @@ func rareC08(o *cw) {
 		o.c("eval", d, "/", "-", "sum(//i/@id) "+op+" 97", "", "edge-arith")
 		o.c("eval", d, "/", "-", "//i[4]/@id "+op+" 3", "", "edge-arith")
 	}
+	rareNumFns(o, hundredDoc(o))
 	for _, s := range []string{"52.520006599999997", "0.14159265358979323846", "1234567890.1234567", "123456789012345.67", "1234567890123456.7", "0.1234567890123456789", "9007199254740993", "9007199254740992.5",
 		"1" + strings.Repeat("0", 309), "-1" + strings.Repeat("0", 309), "0." + strings.Repeat("0", 330) + "1", strings.Repeat("9", 400), "4.9e-324", "17976931348623157" + strings.Repeat("0", 292) + ".5"} {
 		o.c("eval", d, "/", "-", "number('"+s+"')", "", "edge-number")
@@ -190,6 +215,36 @@ func rareC09(o *cw) {
 	o.c("evalall", d, "/", "-", "translate(., @f, @t)", "", "translate-pairs-doc")
 	o.c("sel", d, "/", "-", "//t[translate(., @f, @t) != .]", "", "translate-pairs-doc")
 	o.c("eval", d, "/", "-", "string-join(//t/@f, '|')", "", "translate-pairs-doc")
+	rareStrFns(o, hundredDoc(o))
+	// a result above 4 KB followed by small results of the functions that share a builder pool
+	long := strings.Repeat("abcdefghij", 520)
+	for _, e := range []string{"concat(string-length(concat('" + long + "', 'x')), '|', concat('a', 'b'), '|', normalize-space('  p   q '))",
+		"concat(string-length(normalize-space('" + long + "  z')), '|', concat('a', 'b'), '|', concat('c', 'd'))",
+		"concat(substring(concat('" + long + "', '" + long + "'), 1, 2), concat('x', 'y'), normalize-space(' m  n '))"} {
+		for k := 0; k < 3; k++ {
+			o.c("eval", d, "/", "-", e, "", "pooled-builder")
+			o.c("evalall", d, "/", "-", e, "", "pooled-builder")
+		}
+	}
+	// a non-ASCII lower-case() call (its value is outside C09) must not disturb later ASCII results
+	for _, w := range lowerCaseNonASCII {
+		if strings.Contains(w, "'") {
+			continue
+		}
+		o.c("eval", d, "/", "-", "concat(string(string-length(lower-case('ab"+w+"')) >= 0), '|', concat('x', 'y'), '|', normalize-space('  p   q '), '|', lower-case('ABC'))", "", "after-non-ascii-lower-case")
+	}
+	// the zero-argument forms, from every kind of start node
+	od := oddDocs(o)
+	for _, e := range []string{"string()", "string-length()", "normalize-space()", "number()", "boolean()", "concat(string(), '|', string-length())", "string() = string(.)", "number() = number(.)"} {
+		for _, dd := range append(od, d) {
+			o.c("evalall", dd, "/", "-", e, "", "zero-argument-forms")
+		}
+	}
+	for _, e := range []string{"//text()[string() = 't1']", "//@*[string() != '']", "//comment()[string-length() > 0]", "//node()[string() = string(.)]", "count(//text()[string()='u'])", "//@*[number() > 0]", "//text()[boolean()]"} {
+		for _, dd := range od {
+			o.c("sel", dd, "/", "-", e, "", "zero-argument-forms")
+		}
+	}
 }
 
 // rareC03: parenthesised position()/last(), literal on the left of a relational operator
@@ -216,7 +271,7 @@ func rareC03(o *cw, ds []*dref) {
 
 // rareSpellings: unusual but valid spellings of ordinary expressions (and a few invalid ones: the
 // verdict is compared with the model's)
-var rareSpellings = []string{"child :: a", "child::a", "a [ 1 ]", "a[1]", "- - 1", "--1", "a--1", "a - -1", "a -b", "a - b", "a-b", "..//.", "//.", "/..", "*[*]", "@*[.=1]", "@*[. = 1]", "((a))", "(((a)))[1]",
+var rareSpellings = []string{"6div 2", "7mod 4", "1and 0", "0or 1", ".5div 2", "5.mod 2", "a[. > 4and . < 6]", "2*3div 2", "1.+2", "a[2.]", "10. div 4.", "child :: a", "child::a", "a [ 1 ]", "a[1]", "- - 1", "--1", "a--1", "a - -1", "a -b", "a - b", "a-b", "..//.", "//.", "/..", "*[*]", "@*[.=1]", "@*[. = 1]", "((a))", "(((a)))[1]",
 	"processing-instruction('x')", "processing-instruction()", "a/processing-instruction('x')", "1 or 2 and 3 = 4 != 5 < 6 <= 7 > 8 >= 9 + 10 - 11 * 12 div 13 mod 14 | a", "a|b|c|d|e", "- a | b", "-(a|b)",
 	"a div b", "a div div", "div div div", "div div 2", "mod mod mod", "and and and", "or or or", "text", "text()", "node", "node()", "comment", "comment()", "text/text()", "node/node()", "* * *", "* div *", "@* * 2",
 	"a[b][c][d]", "a [ b ] [ c ]", "a/ b / c", "a // b", "/ a", "// a", ". / a", ".. / a", "a/.", "a/..", "a/./b", "a/../b", ".5", "5.", "0.5", "00.50", ".5 + 5.", "1.", "1.e", ". 5", "5 .", "a.5", "a .5",
@@ -235,3 +290,124 @@ func byteRuns() []string {
 	}
 	return out
 }
+
+// ---- second adversarial round: rarely used functions and argument positions, odd documents,
+// ---- long chains, two- and three-digit positions
+
+// oddDoc: text between elements, empty and adjacent text nodes, comments first, several top-level nodes
+func oddDocs(o *cw) []*dref {
+	srcs := []string{
+		`#first,a("t1",b,"t2","t3",#c,b(""),"",c("x","y"),"t4"),#between,d(@x=1,"u"),"top-text"`,
+		`r(#c1,"a",#c2,"b",e("1"),"c",e("2"),"",e(""),#c3)`,
+		`a(count(@position=1,@last=2,@name=x),child(@self=1,parent("p")),text("t"),node,@count=3,@child=4)`,
+		`r(l(i("1"),i("2"),i("3"),i("4"),i("5"),i("6"),i("7"),i("8"),i("9"),i("10")),l(i("1")),l)`,
+	}
+	var ds []*dref
+	for _, s := range srcs {
+		ds = append(ds, o.doc(doc.Parse(s), false))
+	}
+	return ds
+}
+
+func hundredDoc(o *cw) *dref {
+	var sb strings.Builder
+	sb.WriteString("r(l(")
+	for i := 1; i <= 100; i++ {
+		if i > 1 {
+			sb.WriteString(",")
+		}
+		fmt.Fprintf(&sb, `i(@n=%d,"%d")`, i, i)
+	}
+	sb.WriteString("),l(i(@n=1),i(@n=2),i(@n=3),i(@n=4),i(@n=5),i(@n=6),i(@n=7),i(@n=8),i(@n=9),i(@n=10)))")
+	return o.doc(doc.Parse(sb.String()), false)
+}
+
+var oddPaths = []string{"//text()", "//comment()", "//node()", "/node()", "/*", "/comment()", "/text()", "//a/text()", "//a/node()", "//b/text()", "//text()/..", "//comment()/following-sibling::node()",
+	"//text()/preceding-sibling::node()", "//text()/following::node()", "//c/text()[2]", "//a/text()[last()]", "//e/text()", "//e[text()]", "//e[not(text())]", "//e[. = '']", "//text()[. = '']", "/d/@x/following::node()",
+	"/d/@x/preceding::node()", "//@*/ancestor::node()", "//text()/ancestor-or-self::node()", "//node()[self::text()]", "//node()[self::comment()]", "string(/)", "string(//a)", "count(//text())", "count(/node())",
+	"//count", "//child/parent", "//@position", "//@last | //@name", "//count[@position = 1]", "//*[@count]", "//a/child", "//a/text", "//a/node", "//@child", "count(//count)", "name(//child/*)",
+	"//child[@self]/parent/text()", "//*[count]", "//*[child/parent = 'p']"}
+
+var posForms = []string{"[9]", "[10]", "[11]", "[99]", "[100]", "[101]", "[last()]", "[last() - 1]", "[last() - 9]", "[last() - 10]", "[position() = 10]", "[position() > 9]", "[position() >= 10]", "[position() < 11]",
+	"[position() = last()]", "[position() = 100]", "[position() > 99]", "[position() mod 10 = 0]", "[last() = 10]", "[last() = 100]", "[last() > 9]", "[10][@n]", "[@n][10]", "[100][@n = 100]", "[position() = last() - 90]"}
+
+// numeric function corner values
+var numFnArgs = []string{"0.5", "-0.5", "1.5", "-1.5", "2.5", "-2.5", "0.49999999999999994", "-0.49999999999999994", "4503599627370495.5", "4503599627370496", "4503599627370497", "9007199254740991", "9007199254740992",
+	"-9007199254740992", "0", "-0", "(0 div 0)", "(1 div 0)", "(-1 div 0)", "0.000001", "-0.000001", "1e0", "123456789012", "0.1", "-0.1", "99.999", "1000000", "1234567.891", "0.00001", "0.0000001", "100000000000000000000",
+	"123456789012345680000", "0.000000123", "-123.456", "1 div 3", "2 div 3", "10 div 4", "-10 div 4"}
+
+func rareNumFns(o *cw, d *dref) {
+	for _, a := range numFnArgs {
+		if strings.Contains(a, "e0") {
+			continue
+		}
+		for _, f := range []string{"floor", "ceiling", "number", "string", "boolean", "not", "string-length"} {
+			o.c("eval", d, "/", "-", f+"("+a+")", "", "num-fn-corners")
+		}
+		o.c("eval", d, "/", "-", "string(floor("+a+"))", "", "num-fn-corners")
+		o.c("eval", d, "/", "-", "string(ceiling("+a+"))", "", "num-fn-corners")
+		o.c("eval", d, "/", "-", "floor("+a+") = ceiling("+a+")", "", "num-fn-corners")
+		o.c("eval", d, "/", "-", "string(-("+a+"))", "", "num-fn-corners")
+		o.c("eval", d, "/", "-", "string("+a+" * 1)", "", "num-fn-corners")
+		o.c("eval", d, "/", "-", "concat("+a+", '')", "", "num-fn-corners")
+		o.c("eval", d, "/", "-", "1 div "+a, "", "num-fn-corners")
+		o.c("eval", d, "/", "-", "string(1 div "+a+")", "", "num-fn-corners")
+	}
+	for _, e := range []string{"sum(//i)", "sum(//i/@n)", "sum(//l[2]/i/@n)", "sum(//l)", "sum(//zz)", "sum(//i | //i/@n)", "sum(//i[. > 50]) div count(//i[. > 50])", "count(//i) * 2 - sum(//l[2]/i/@n)",
+		"string(sum(//i) div 3)", "string(sum(//i) * 1000000000000)", "floor(sum(//i) div 7)", "sum(//i) mod 7", "-sum(//i)", "string(-sum(//zz))"} {
+		o.c("eval", d, "/", "-", e, "", "num-fn-corners")
+	}
+}
+
+// string function corner cases: empty and longer needles, many arguments, separators, non-ASCII
+func rareStrFns(o *cw, d *dref) {
+	strs := []string{"''", "'a'", "'ab'", "'abc'", "'abcabc'", "' '", "'  a  b  '", "'A'", "'aBc'", "'bc'", "//i[1]", "//i[10]", "//zz", "//l[2]/i[3]/@n", "'\t\n'"}
+	for _, a := range strs {
+		for _, b := range strs {
+			for _, f := range []string{"starts-with", "ends-with", "contains", "substring-before", "substring-after"} {
+				if strings.HasPrefix(b, "//") && (f == "starts-with" || f == "ends-with" || f == "contains") {
+					continue // a node-set as second argument is a documented complaint
+				}
+				o.c("eval", d, "/", "-", f+"("+a+", "+b+")", "", "str-fn-corners")
+			}
+		}
+		o.c("eval", d, "/", "-", "lower-case("+a+")", "", "str-fn-corners")
+		o.c("eval", d, "/", "-", "normalize-space("+a+")", "", "str-fn-corners")
+		o.c("eval", d, "/", "-", "string-length("+a+")", "", "str-fn-corners")
+		o.c("eval", d, "/", "-", "concat("+a+", "+a+", 'x', "+a+", 'y', "+a+", 'z', "+a+", '1', "+a+", '2', "+a+")", "", "str-fn-corners")
+		o.c("eval", d, "/", "-", "translate("+a+", 'abcd ', 'AB')", "", "str-fn-corners")
+	}
+	for _, sep := range []string{"''", "','", "', '", "'--'", "' '", "'\n'"} {
+		for _, p := range []string{"//i", "//l[2]/i", "//l[2]/i/@n", "//zz", "//i[1]", "//l/i[1] | //l/i[2]", "reverse(//l[2]/i)"} {
+			o.c("eval", d, "/", "-", "string-join("+p+", "+sep+")", "", "str-fn-corners")
+		}
+	}
+	// (reverse(P)[n] is outside every property: the position of a transform query is always 1)
+	for _, e := range []string{"concat(lower-case('STRASSE 12'), '|', concat('x', 'y'), '|', normalize-space('  p   q '))", "//i[count(reverse(preceding-sibling::i)) = 2]", "string(reverse(//l[2]/i))", "count(reverse(//i))"} {
+		o.c("selall", d, "/", "-", e, "", "str-fn-corners")
+		o.c("evalall", d, "/", "-", e, "", "str-fn-corners")
+	}
+}
+
+// long chains: 10+ union operands, predicates, steps; predicates nested 5 deep; a very long ordinary text
+func longForms() []string {
+	var out []string
+	j := func(n int, unit, sep string) string {
+		var xs []string
+		for i := 0; i < n; i++ {
+			xs = append(xs, strings.ReplaceAll(unit, "#", fmt.Sprint(i+1)))
+		}
+		return strings.Join(xs, sep)
+	}
+	for _, n := range []int{10, 12, 30} {
+		out = append(out, j(n, "//i[#]", " | "), "//i"+j(n, "[. > 0]", ""), j(n, "*", "/"), "//i["+j(n, "@n > #", " and ")+"]", "//i["+j(n, ". = #", " or ")+"]", j(n, "#", " + "), j(n, "#", " * ")+" div 7",
+			"concat("+j(n, "'s#'", ", ")+")", "//l[1]"+j(n, "/../l[1]", ""), j(n, "count(//i[#])", " + "))
+	}
+	out = append(out, "//r[l[i[@n[. > 0][. < 200]][. != '']][i[last()]]]", "//l[i[@n[.=1]]][i[@n[.=10]]][not(i[@n[.=11]])]", "//*[*[*[1][self::i][@n=1]]]",
+		"("+j(40, "//i[@n = #]", " | ")+")[last()]", "count("+j(50, "//l[1]/i[#]", " | ")+")", "//i["+j(60, "@n = #", " or ")+"][1]")
+	return out
+}
+
+// lower-case() on non-ASCII text is outside C09 (ASCII); C15 still requires that it never crashes:
+// the code points whose lower-case form is LONGER in UTF-8 (U+023A, U+023E), title-case digraphs, final sigma ...
+var lowerCaseNonASCII = []string{"ÀÉÎÕÜ", "ΑΒΓ", "ДЖЗ", "İI", "ẞ", "ǅ", "Ⱥ", "xȾy", "ȺȾȺȾȺȾȺȾ", "Straße 12", "ΣΑΣ", "K", "ǄǇǊ", "\u1e9e\u0130\u023a", "A\u030a", "\ufb00", "\U00010400"}
